@@ -35,6 +35,7 @@ func init() {
 			"non-trivial = at least one call got past the argument checks (output `ok …` or a padding / authentication error); distinct by hash of the lines",
 		Classify: classify,
 		Parallel: true,
+		Facts:    facts,
 		Extras: []core.Extra{
 			{Name: "unpad-exhaustive-small", Run: extraUnpadExhaustive},
 			{Name: "gcm-all-single-bit-flips", Run: extraBitFlips},
